@@ -74,6 +74,8 @@ class cu_get_die_from_refaddr:
     the unit's entries are rejected"""
     params = dict(self=CUFull, refaddr=Int)
     modifies = ["*rep"]
+    own_raises = {"DWARFError": "not (self.cu_die_offset <= refaddr and refaddr < self.cu_offset + self.header.unit_length"
+                                " + (4 if self.structs.dwarf_format == 32 else 12))"}
     returns = DIET
     ensures = ["die_at(result, self, refaddr)", "self.cu_die_offset <= refaddr",
                "refaddr < self.cu_offset + self.header.unit_length + (4 if self.structs.dwarf_format == 32 else 12)"] + DIE_RI
